@@ -1,7 +1,12 @@
 import Mdsort.Model.Eval
 import Mdsort.Spec.Rules
+import Mdsort.Proofs.EvalRules
 
-/-! Helper definitions and lemmas for C03 (the evaluator refines the documented rule semantics). -/
+/-! Helper definitions and lemmas for C03 (the evaluator refines the documented rule semantics).
+
+The proof is spread over `EvalDom` (the pieces of `InDomain`), `EvalList` (match-list
+primitives), `EvalCond` (conditions are context-free), `EvalSim` (the invariant, actions, the
+block epilogue) and `EvalRules` (the induction over the rules of a block). -/
 
 namespace Mdsort.Proofs
 open Mdsort Mdsort.Model
@@ -21,8 +26,48 @@ def actionErr (a : Expr) : Bool :=
   | .move _ p => decide (p.length ≥ PATH_MAX)
   | _ => false
 
-/-- Decidable domain of the refinement theorem (to be completed: see Props/C03.lean). -/
-def InDomain (env : Env) (e : Expr) : Bool := sorry
+/-- Decidable domain of the refinement theorem.
+
+* `wfTree e`: the tree only contains the matchers `all`, `new`, `old`, `header`, `body`, `date`,
+  `stat`/`command` without a backslash in their strings (no back-references), the actions
+  `move`, `flag` (name shorter than `NAME_MAX + 1`), `flags`, `discard`, `label`, `reject`,
+  `exec`, `add-header`, `pass`, `break`, and block / and / or / ! / match nodes; that is, no
+  `attachment` condition and no attachment block.  Shape (rules, nesting, pass/break last) is
+  the business of `Spec.parseBlock`.
+* `old` reads the Seen flag: a tree that uses `old` must not set `S` in a `flags` action.
+* `matches_append` cannot fail: the maildir and the subdirectory of the message path can be
+  sliced off, and with `L` the longest subdirectory name that can occur (the message's or
+  that of a `flag` action) the message's maildir and every `move` destination that fits
+  `PATH_MAX` at all (the others are `actionErr`) leave room for `/` and `L` more bytes. -/
+def InDomain (env : Env) (e : Expr) : Bool :=
+  wfTree e && (!hasOld e || flagsKeepSeen e) &&
+  match pathslice env.path PATH_MAX 0 (-2), pathslice env.path NAME_MAX1 (-2) (-2) with
+  | some maildir, some subdir =>
+    let L := max subdir.length (maxSubdir e)
+    decide (maildir.length + 1 + L < PATH_MAX) && movesFit L e
+  | _, _ => false
+
+theorem mlKeys_eq (ml : MatchList) : mlKeys ml = keysOf ml := rfl
+theorem valuation_eq : valuation = valOf := rfl
+theorem actionErr_eq : actionErr = actErr := rfl
+
+theorem InDomain_spec {env : Env} {e : Expr} (h : InDomain env e = true) :
+    ∃ L, PCtx env L ∧ okTree L (hasOld e) e := by
+  unfold InDomain at h
+  simp only [Bool.and_eq_true] at h
+  obtain ⟨⟨hw, hold⟩, h⟩ := h
+  have hold' : hasOld e = true → flagsKeepSeen e = true := by
+    intro ho
+    simpa [ho] using hold
+  cases hm : pathslice env.path PATH_MAX 0 (-2) with
+  | none => simp [hm] at h
+  | some m0 =>
+    cases hs : pathslice env.path NAME_MAX1 (-2) (-2) with
+    | none => simp [hm, hs] at h
+    | some s0 =>
+      simp only [hm, hs, Bool.and_eq_true, decide_eq_true_eq] at h
+      exact ⟨max s0.length (maxSubdir e), ⟨⟨m0, hm, h.1⟩, ⟨s0, hs, Nat.le_max_left _ _⟩⟩, hw, h.2,
+        Nat.le_max_right _ _, id, hold'⟩
 
 theorem eval_refines_spec (env : Env) (root : Msg) (f : MFlags) (e : Expr) (rules : List Spec.Rule)
     (hp : Spec.parseBlock e = some rules) (hd : InDomain env e = true)
@@ -30,6 +75,51 @@ theorem eval_refines_spec (env : Env) (root : Msg) (f : MFlags) (e : Expr) (rule
     let o := Spec.evalBlock (valuation env root f) actionErr rules
     let r := eval env root e 0 root { ml := [], flags := f }
     r.1 = o.res ∧ (o.res = .match → Spec.planOf (mlKeys r.2.ml) = Spec.planOf (o.actions.filterMap Spec.actKey)) := by
-  sorry
+  obtain ⟨L, hctx, hok⟩ := InDomain_spec hd
+  rw [valuation_eq, actionErr_eq] at hl ⊢
+  cases e with
+  | block lno e' =>
+    simp only [Spec.parseBlock] at hp
+    have hR0 : Rel L ({ ml := [], flags := f } : St).ml ({ pend := [], crosses := false } : Spec.Run).pend (false || false) :=
+      ⟨rfl, rfl, rfl, by simp, by intro m hm; simp at hm⟩
+    have hcr : (Spec.evalRules (valOf env root f) actErr false false 0 rules false { pend := [], crosses := false }).2.crosses
+        = false := by
+      unfold Spec.evalBlock at hl
+      rcases h : Spec.evalRules (valOf env root f) actErr false false 0 rules false { pend := [], crosses := false }
+        with ⟨b, run⟩
+      rw [h] at hl
+      cases b <;> exact hl
+    have hpost := sim_rules hctx root f (hasOld (.block lno e')) (sizeOf rules + 1) rules (Nat.lt_succ_self _) (orChain e')
+      (parseRules_orChain e' rules hp) (okTree_orChain e' (okTree_block hok)) false false 0 false
+      { pend := [], crosses := false } { ml := [], flags := f } (fun _ => ⟨rfl, rfl⟩) hR0 (fun _ => rfl) hcr
+    rw [← eval_orChain, ← eval_block env root lno] at hpost
+    intro o r
+    show r.1 = o.res ∧ _
+    have ho : o = Spec.evalBlock (valOf env root f) actErr rules := rfl
+    have hr : r = eval env root (.block lno e') 0 root { ml := [], flags := f } := rfl
+    rw [← hr] at hpost
+    unfold Spec.evalBlock at ho
+    rcases h : Spec.evalRules (valOf env root f) actErr false false 0 rules false { pend := [], crosses := false }
+      with ⟨b, run⟩
+    rw [h] at hpost ho
+    cases b with
+    | err =>
+      simp only at ho
+      rw [ho]
+      exact ⟨hpost, fun h => by cases h⟩
+    | matched =>
+      simp only at ho
+      rw [ho]
+      obtain ⟨h1, h2, _⟩ := hpost
+      exact ⟨h1, fun _ => h2.plan⟩
+    | «nomatch» =>
+      simp only at ho
+      rw [ho]
+      exact ⟨hpost.1, fun h => by cases h⟩
+    | broke =>
+      simp only at ho
+      rw [ho]
+      exact ⟨hpost.1, fun h => by cases h⟩
+  | _ => simp [Spec.parseBlock] at hp
 
 end Mdsort.Proofs
